@@ -433,6 +433,18 @@ def r02_10(ctx):
         ctx.ob("R02.10", f"dot-accept#{k}", not again, fn.loc(fn.blocks[a]["term"]["ln"]),
                f"after a '.' is consumed the fraction flag `{fn.locals[flag].get('name')}` is set on every path that can test for '.' again" if not again else
                f"after a '.' is consumed a path reaches another test for '.' without setting `{fn.locals[flag].get('name')}`: a second fraction (1.5.5) is skipped as one number")
+    # a '.' must be followed by a digit: from the edge on which the dot is accepted, the digit check is passed before the
+    # scanner looks at anything else (the next chunk, the exponent, the end of the number)
+    digit = {b for b, t in fn.calls() if callee_is(t, "skip_single_digit")}
+    goals = {b for b, t in fn.calls() if callee_is(t, "peek_n", "skip_exponent", "Reader::peek", "peek")} | set(fn.return_blocks)
+    k = 0
+    for a in accept:
+        k += 1
+        esc = (fn.reachable_from(a, avoid=digit) | ({a} - digit)) & goals
+        # reading the byte that is being dispatched does not count: only reads after the accept edge
+        ctx.ob("R02.10", f"dot-then-digit#{k}", not esc, fn.loc(fn.blocks[a]["term"]["ln"]),
+               "a consumed '.' is followed by the one-digit check before anything else is examined" if not esc else
+               "a consumed '.' can be followed by the next block / the exponent / the end of the number without the one-digit check: `1.`, `1.e5` are skipped as numbers")
 
 
 VALUE_START = {45, 34, 91, 123, 116, 102, 110} | set(range(48, 58))
